@@ -241,4 +241,65 @@ theorem sortEv_of_sorted (l : List Ev) (h : l.Pairwise (fun a b => a.t ≤ b.t))
     | nil => rfl
     | cons c l => simp [ins, h.1 c (by simp)]
 
+/-! ### the stable sort in descending order (`reverse=True`) -/
+
+theorem mem_insDesc {x y : Ev} {l : List Ev} : y ∈ insDesc x l ↔ y = x ∨ y ∈ l := by
+  induction l with
+  | nil => simp [insDesc]
+  | cons a l ih =>
+    unfold insDesc
+    split
+    · simp
+    · simp [ih]; tauto
+
+theorem mem_sortEvDesc {y : Ev} {l : List Ev} : y ∈ sortEvDesc l ↔ y ∈ l := by
+  induction l with
+  | nil => simp [sortEvDesc]
+  | cons a l ih => simp [sortEvDesc, mem_insDesc, ih]
+
+theorem perm_insDesc (x : Ev) (l : List Ev) : (insDesc x l).Perm (x :: l) := by
+  induction l with
+  | nil => simp [insDesc]
+  | cons a l ih =>
+    unfold insDesc
+    split
+    · exact List.Perm.refl _
+    · exact (List.Perm.cons a ih).trans (List.Perm.swap x a l)
+
+theorem perm_sortEvDesc (l : List Ev) : (sortEvDesc l).Perm l := by
+  induction l with
+  | nil => simp [sortEvDesc]
+  | cons a l ih => exact (perm_insDesc a (sortEvDesc l)).trans (List.Perm.cons a ih)
+
+theorem sorted_insDesc (x : Ev) (l : List Ev) (h : l.Pairwise (fun a b => b.t ≤ a.t)) :
+    (insDesc x l).Pairwise (fun a b => b.t ≤ a.t) := by
+  induction l with
+  | nil => simp [insDesc]
+  | cons a l ih =>
+    unfold insDesc
+    rw [List.pairwise_cons] at h
+    split
+    · rename_i hxa
+      refine List.pairwise_cons.2 ⟨?_, List.pairwise_cons.2 h⟩
+      intro y hy
+      rcases List.mem_cons.1 hy with rfl | hy
+      · exact hxa
+      · exact le_trans (h.1 y hy) hxa
+    · rename_i hxa
+      refine List.pairwise_cons.2 ⟨?_, ih h.2⟩
+      intro y hy
+      rcases mem_insDesc.1 hy with rfl | hy
+      · omega
+      · exact h.1 y hy
+
+theorem sorted_sortEvDesc (l : List Ev) : (sortEvDesc l).Pairwise (fun a b => b.t ≤ a.t) := by
+  induction l with
+  | nil => simp [sortEvDesc]
+  | cons a l ih => exact sorted_insDesc a _ ih
+
+theorem perm_sortDir (bw : Bool) (l : List Ev) : (sortDir bw l).Perm l := by
+  cases bw
+  · exact perm_sortEv l
+  · exact perm_sortEvDesc l
+
 end BeyondVerif.Listen
